@@ -89,6 +89,7 @@ def install(it):
     install_compile(it)
     install_ipaddress(it)
     install_ast_visitors(it)
+    install_unicodedata(it)
     install_total_ordering(it)
     install_binascii(it)
 
@@ -199,6 +200,20 @@ def install_ast_visitors(it):
         it.native_method_models[(base, "visit")] = m_visit
     it.native_method_models[(ast.NodeVisitor, "generic_visit")] = m_generic_visit
     it.native_method_models[(ast.NodeTransformer, "generic_visit")] = m_generic_visit_transformer
+
+
+def install_unicodedata(it):
+    import unicodedata
+
+    def m_normalize(it_, form, text):
+        u = it_.unbase(text)
+        if isinstance(u, SStr):
+            note("unicodedata.normalize", "a deterministic function of the text about which nothing else is assumed (over-approximation: a refutation that depends on it must replay to count)")
+            it_.approx.append("unicodedata.normalize")
+            return SStr(z3.Function(f"unicodedata_normalize_{form}", z3.StringSort(), z3.StringSort())(u.t))
+        return it_.call_native(unicodedata.normalize, [form, text], {})
+
+    it.models[unicodedata.normalize] = m_normalize
 
 
 def install_compile(it):
